@@ -528,7 +528,8 @@ prop(
     level="other",
     design_ref="DESIGN.md section 3, C18",
     groups=[(["./cfg"], r"^(ParseFieldSelector|ParseNestedFields|ParseNestedFields\$1)$"),
-            (["./plugin/action/keep_fields"], r"^\(\*Plugin\)\.traverseFieldsTree$"),
+            (["./plugin/action/keep_fields"], r"^(newFieldPathNode|\(\*Plugin\)\.(Start|Do|traverseFieldsTree))$"),
+            (["./plugin/action/remove_fields"], r"^\(\*Plugin\)\.Start$"),
             (["./plugin/action/remove_fields", "./pipeline"], r"^\(\*Plugin\)\.Do$")],
     canaries=[("./cfg", "replay/C18/zz_selector_escape_test.go", "TestVerifSelectorTwoEscapedDots")],
     claim=(
